@@ -85,65 +85,10 @@ func repairConditions(cur *config.Pipeline, nw *config.Pipeline) bool {
 	return changed
 }
 
-func connDeletedRaw(cur *config.Pipeline, nw config.Pipeline) bool {
-	for _, oc := range cur.Connectors {
-		found := false
-		for _, nc := range nw.Connectors {
-			if nc.ID == oc.ID {
-				found = nc.Type == oc.Type
-			}
-		}
-		if !found {
-			return true
-		}
-	}
-	return false
-}
-
-// condProcDeletedRaw: the new config drops a stored processor that has a condition
-// (same parent id + processor id), or re-creates nothing of it.
-func condProcDeletedRaw(cur *config.Pipeline, nw config.Pipeline) bool {
-	gone := func(old, list []config.Processor) bool {
-		for _, op := range old {
-			if op.Condition != "" && !hasProc(list, op.ID) {
-				return true
-			}
-		}
-		return false
-	}
-	if gone(cur.Processors, nw.Processors) {
-		return true
-	}
-	for _, oc := range cur.Connectors {
-		var list []config.Processor
-		for _, nc := range nw.Connectors {
-			if nc.ID == oc.ID {
-				list = nc.Processors
-			}
-		}
-		if gone(oc.Processors, list) {
-			return true
-		}
-	}
-	return false
-}
-
-// connGrowsTo3Raw: a connector that persists with the same type gets a different
-// processor-id list of >= 3 entries (the rollback of that update hits kFailReorder's defect).
-func connGrowsTo3Raw(cur *config.Pipeline, nw config.Pipeline) bool {
-	for _, oc := range cur.Connectors {
-		for _, nc := range nw.Connectors {
-			if oc.ID == nc.ID && oc.Type == nc.Type && len(nc.Processors) >= 3 &&
-				fmt.Sprint(procIDs(oc.Processors)) != fmt.Sprint(procIDs(nc.Processors)) {
-				return true
-			}
-		}
-	}
-	return false
-}
-
 // applyKnownShapes is the generator-side exclusion of known findings: it changes
 // the drawn step so that it no longer has exactly the shape of a known finding.
+// It is used for the findings that make an import fail or leave the stored
+// configuration different from the model (the chain could not continue).
 func applyKnownShapes(cur *config.Pipeline, s *Step, path string, known func(string) bool, exclude func(string)) {
 	if cur != nil {
 		if known(kFailReorder) && repairConnProcs(cur, &s.New) {
@@ -153,37 +98,10 @@ func applyKnownShapes(cur *config.Pipeline, s *Step, path string, known func(str
 			exclude(kNCCondChanged)
 		}
 	}
-	actionFault := s.Fault != nil && (s.Fault.Kind == "set" || s.Fault.Kind == "procnew")
-	dropFault := func(k string) {
-		s.Fault = nil
-		actionFault = false
-		exclude(k)
-	}
-	if actionFault && cur != nil && connGrowsTo3Raw(cur, s.New) {
-		// same defect as kFailReorder, reached through the rollback of the connector update
-		k := kRollbackConnProcs(path, s.Fault.Kind+"-failed")
-		if known(k) || known(kFailReorder) {
-			dropFault(k)
-		}
-	}
-	if actionFault && cur != nil && connDeletedRaw(cur, s.New) {
-		// a failed import that had already deleted a connector re-creates it without its position
-		if k := kStateFailMem(path); known(k) {
-			dropFault(k)
-		}
-	}
-	if actionFault && cur != nil && condProcDeletedRaw(cur, s.New) {
-		// ... or a processor without its condition
-		if k := kCondLost(path); known(k) {
-			dropFault(k)
-		}
-	}
-	if s.Fault != nil && s.Fault.Kind == "commit" {
-		if k := kNotAtomicExport(path, "commit-failed"); known(k) {
-			s.Fault = nil
-			exclude(k)
-		}
-	}
+	// Every other known key needs no generator change: pbt.Stats.Report counts it as
+	// a known hit, and the runner restarts the services from the store after any
+	// violation, so the chain continues from a state that matches the model.
+	_ = path
 }
 
 // ---------------------------------------------------------------- collection mode
@@ -297,15 +215,13 @@ func shrinkCase(c *Case, key string, budget int) *Case {
 		}
 		for si := range best.Steps {
 			si := si
-			if si < len(best.Steps)-1 {
-				try(func(c *Case) bool {
-					if c.Steps[si].Fault == nil {
-						return false
-					}
-					c.Steps[si].Fault = nil
-					return true
-				})
-			}
+			try(func(c *Case) bool {
+				if c.Steps[si].Fault == nil {
+					return false
+				}
+				c.Steps[si].Fault = nil
+				return true
+			})
 			try(func(c *Case) bool {
 				f := c.Steps[si].Fault
 				if f == nil || f.Index == 0 {
@@ -452,7 +368,7 @@ func TestC15Chain(t *testing.T) {
 			} else {
 				s.New, s.Edits = genEdit(t, o, *r.curRaw)
 			}
-			s.Fault = genFault(t, r.path == "notxn", false, fmt.Sprintf("step%d", i))
+			s.Fault = genFault(t, r.path == "notxn", fmt.Sprintf("step%d", i))
 			applyKnownShapes(r.curRaw, &s, r.path, known, st.Exclude)
 			c.Steps = append(c.Steps, s)
 			pbt.MarkCurrent("C15", c)
@@ -556,8 +472,9 @@ func TestC15FaultSweep(t *testing.T) {
 			for k := 0; k < 40; k++ {
 				s := Step{New: clonePipeline(newRaw), Fault: &FaultSpec{Kind: kind, Index: k}, Edits: edits}
 				applyKnownShapes(&oldRaw, &s, path, known, st.Exclude)
-				if s.Fault == nil {
-					break // this fault kind is a known shape for this pair
+				dropped := s.Fault == nil // this fault kind is a known shape for this pair
+				if dropped && runs > 0 {
+					break
 				}
 				c := &Case{Mode: mode, Steps: []Step{{New: clonePipeline(oldRaw)}, s}}
 				last = c
@@ -574,7 +491,7 @@ func TestC15FaultSweep(t *testing.T) {
 				if fatal = report(st, vs, c); fatal != nil {
 					break sweep
 				}
-				if !fired || kind == "commit" || kind == "newtxn" {
+				if dropped || !fired || kind == "commit" || kind == "newtxn" {
 					break // k is beyond the last operation of this import (or the kind has one position)
 				}
 			}
